@@ -16,7 +16,7 @@ SPROPS = {
                 what="every operation finishes under fair schedules"),
     "C12": dict(profiles=[("list", 300, 25000), ("fast", 150, 10000), ("refs", 250, 20000), ("aba", 100, 8000)], tags={"C12", "C13"}, corpus=True,
                 what="happens-before for recycled memory and teardown"),
-    "C06": dict(profiles=[("list", 60, 4000), ("fast", 30, 2000), ("aba", 20, 1500)], tags={"C06"}, corpus=True, crash=True,
+    "C06": dict(profiles=[("list", 60, 4000), ("fast", 30, 2000), ("aba", 20, 1500), ("crashseq", 60, 4000)], tags={"C06"}, corpus=True, crash=True,
                 what="crash at any point leaves a reopenable, consistent file"),
 }
 
@@ -66,6 +66,10 @@ def parse_case_file(lines):
 def monitor_sched(case_lines, out_lines, S, F):
     """oracles on one implementation trace; returns list of (prop, sig, msg)"""
     V = []
+    if out_lines and out_lines[0].startswith("died"):
+        for p_ in ("C01", "C02", "C03", "C04", "C07", "C08"):
+            V.append((p_, "impl-crash", f"the implementation killed the process ({out_lines[0].strip()}: SIGSEGV / abort inside the crate) while this schedule was running"))
+        return V
     progs = parse_case_file(case_lines)
     cfg = vlib.parse_cfg(next((l for l in case_lines if l.startswith("cfg ")), "cfg"))
     live, dead = {}, []      # handle -> (off, cap)
@@ -85,6 +89,13 @@ def monitor_sched(case_lines, out_lines, S, F):
     crash_pending = None
     ev_seen = 0
     marked = {}   # thread -> node offset it has marked removed and not yet unlinked / restored
+    inc_total = 0
+    di0 = None
+    try:
+        last_pre = vlib.parse_obs(out_lines[len(pre_ops)]) if out_lines else {}
+        if "di" in last_pre: di0 = int(last_pre["di"])
+    except Exception:
+        pass
     for idx, l in enumerate(out_lines[1 + len(pre_ops):]):
         t = l.split()
         if not t: continue
@@ -118,6 +129,10 @@ def monitor_sched(case_lines, out_lines, S, F):
                 live.pop(int(ops[i][1]), None)
             if o.get("loc") == "refs" and o.get("k") == "fas" and o.get("new") == "0":
                 refs_zero_by = tid
+            # C20: discarded() never decreases (no clear in these programs) ...
+            if o.get("loc") == "disc" and o.get("ok") == "1" and o.get("k") != "ld":
+                if int(o.get("new", "0")) < int(o.get("old", "0")) and int(o.get("old", "0")) < (1 << 32) - (1 << 20):
+                    V.append(("C20", "discarded-decreases", f"the discarded counter went from {o.get('old')} to {o.get('new')}: {norm(l)}"))
         elif kind == "na":
             if o.get("src") == "unmount":
                 if unmounted:
@@ -140,6 +155,7 @@ def monitor_sched(case_lines, out_lines, S, F):
                     live[int(op[1])] = (off, cap)
                 if op[0].startswith("alloc_bytes") and o.get("z") == "0":
                     V.append(("C02", "nonzero", f"t={tid} {' '.join(op)} returned non-zero bytes"))
+                    V.append(("C08", "nonzero", f"t={tid} {' '.join(op)} returned non-zero bytes"))
                 if op[0].startswith("alloc_t") and cap > 0 and int(op[2]) > 0 and off % int(op[2]) != 0:
                     V.append(("C03", "offset-align", f"t={tid} {' '.join(op)} offset {off}"))
                 if op[0].startswith("alloc_aligned") and cap > 0 and (off % int(op[2]) != 0 or cap < int(op[3]) + int(op[4])):
@@ -154,14 +170,22 @@ def monitor_sched(case_lines, out_lines, S, F):
                 live.pop(int(op[1]), None)
             elif op[0] == "detach" and len(op) > 1 and op[1].isdigit() and int(op[1]) in live:
                 dead.append(live.pop(int(op[1])))
+            elif op[0] == "inc_discarded" and r == "ok":
+                inc_total += int(op[1])
             elif op[0] == "verify" and o.get("v") == "0":
                 V.append(("C02", "bytes-changed", f"t={tid} verify {op[1]}: the bytes of a live handle were modified by someone else"))
+        elif kind == "died":
+            for p_ in ("C01", "C02", "C03", "C04", "C07", "C08"):
+                V.append((p_, "impl-crash", f"the implementation killed the process ({l.strip()}: SIGSEGV/abort inside the crate) while this schedule was running"))
         elif kind == "hang":
             sig = site_name(o.get("at"), S, F)
             V.append(("C07", f"hang@{sig}", f"thread {o.get('t')} never finishes operation #{o.get('i')}: it keeps executing {norm(l)}"))
         elif kind == "final":
             if o.get("lv") == "0":
                 V.append(("C02", "bytes-changed", "final verification: the bytes of a live handle were modified by someone else"))
+            # ... and every completed increase_discarded(n) is in it (other operations only add)
+            if di0 is not None and "di" in o and inc_total and int(o["di"]) < di0 + inc_total and di0 + inc_total < (1 << 32):
+                V.append(("C20", "increase-lost", f"discarded() = {o['di']} at the end, but it was {di0} before the threads started and they completed increase_discarded calls worth {inc_total}"))
             if refs_zero_by is not None and not unmounted:
                 V.append(("C13", "leak", f"the reference count reached 0 (thread {refs_zero_by}) but the memory was never released"))
         elif kind == "crash":
@@ -219,25 +243,73 @@ def sweep_variants(case_lines, impl_lines, max_k=48, napoints=False):
                 out.append(head + ["sched " + " ".join(sch), "end"])
     return out
 
-def run_cases(prefix, cases, model=True):
+def robust_run(cases_file, impl_file):
+    """`sched run` on a case file; when the implementation kills the process (SIGSEGV/abort inside the crate under test)
+    the journal on stderr names the case, whose block becomes the single line `died rc=<n>`, and the remaining cases are
+    run one per process. Returns the list of (case index, rc) that died."""
     binp = vlib.harness_bin("sched")
+    q = vlib.run([binp, "run", cases_file], timeout=7200)
+    out = q.stdout
+    died = []
+    if q.returncode != 0:
+        begun = [int(x) for x in re.findall(r"(?m)^sched-begin (\d+)", q.stderr or "")]
+        done = set(int(x) for x in re.findall(r"(?m)^sched-done (\d+)", q.stderr or ""))
+        pend = [b for b in begun if b not in done]
+        if pend:
+            n = pend[-1]
+            try:
+                total = len(split_cases([l for l in open(cases_file).read().splitlines() if l.strip() and not l.startswith("#")]))
+            except OSError:
+                total = n + 1
+            # keep only the complete blocks of the cases before n
+            blocks = split_cases(out.splitlines())[:n]
+            out = "".join("\n".join(b) + "\nend\n" for b in blocks)
+            died.append((n, q.returncode))
+            out += f"died rc={q.returncode}\nend\n"
+            for k in range(n + 1, total):
+                q2 = vlib.run([binp, "run", cases_file, "--only", str(k)], timeout=600)
+                if q2.returncode == 0:
+                    out += q2.stdout if q2.stdout.rstrip().endswith("end") else q2.stdout + "end\n"
+                else:
+                    died.append((k, q2.returncode)); out += f"died rc={q2.returncode}\nend\n"
+    open(impl_file, "w").write(out)
+    return died
+
+def run_cases(prefix, cases, model=True):
     with open(prefix + ".cases", "w") as f:
         for c in cases: f.write("\n".join(c) + "\n")
-    q = vlib.run([binp, "run", prefix + ".cases"], timeout=7200)
-    open(prefix + ".impl", "w").write(q.stdout)
+    died = robust_run(prefix + ".cases", prefix + ".impl")
     if not model:
-        return q.returncode, True
+        return (1 if died else 0), True
     try:
         with open(prefix + ".cases") as fin, open(prefix + ".model", "w") as fout:
             subprocess.run([vlib.DRIVER, "conc"], stdin=fin, stdout=fout, stderr=subprocess.PIPE, text=True)
     except OSError:
-        return q.returncode, False
-    return q.returncode, True
+        return (1 if died else 0), False
+    return (1 if died else 0), True
 
 def gen_shard(args):
     r = gen_shard0(args[:5])
     nsweep = args[5] if len(args) > 5 else 0
+    inject = args[6] if len(args) > 6 else None
     extra = []
+    if inject and not args[4]:
+        import random
+        prefix = args[3]
+        try:
+            rnd = random.Random(args[1] * 31 + 7)
+            cases = split_cases(open(prefix + ".cases").read().splitlines())
+            inj = []
+            for cl in cases:
+                cl = [l for l in cl if l.strip() and not l.startswith("#")]
+                if cl: inj.append(inject_ops(cl, inject, rnd) + ["end"])
+            if inj:
+                run_cases(prefix + "_inj", inj)
+                extra.append(prefix + "_inj")
+                # sweeps below are taken from the spliced cases
+                args = list(args); args[3] = prefix + "_inj"
+        except OSError as e:
+            log("inject", prefix, e)
     if nsweep and not args[4]:
         prefix = args[3]
         try:
@@ -258,6 +330,23 @@ def gen_shard(args):
                 extra.append(prefix + "_na")
         except OSError as e:
             log("sweep", prefix, e)
+    if nsweep and args[4] and len(args) > 7 and args[7]:
+        # crash-point mode on single-preemption schedules with the zero-fill as a scheduling point (implementation only)
+        prefix = args[3]
+        try:
+            cases = split_cases(open(prefix + ".cases").read().splitlines())
+            impl = split_cases(open(prefix + ".impl").read().splitlines())
+            var = []
+            for k, cl in enumerate(cases[:nsweep]):
+                cl = [l for l in cl if l.strip() and not l.startswith("#") and l != "crash"]
+                if k < len(impl) and cl and len(parse_case_file(cl)) >= 2:
+                    for v in sweep_variants(cl, impl[k], 12, True):
+                        var.append(v[:-1] + ["crash", "end"])
+            if var:
+                run_cases(prefix + "_cs", var, model=False)
+                extra.append(prefix + "_cs")
+        except OSError as e:
+            log("crash sweep", prefix, e)
     return r[0], r[1], r[2], extra
 
 def gen_shard0(args):
@@ -274,11 +363,12 @@ def gen_shard0(args):
             src = re.sub(r"backend=(vec|anon)", "backend=file", src)
             src = re.sub(r"(?m)^end$", "crash\nend", src)
             open(prefix + ".cases", "w").write(src)
-            q = vlib.run([binp, "run", prefix + ".cases"], timeout=7200)
-            open(prefix + ".impl", "w").write(q.stdout)
-            p = q
+            robust_run(prefix + ".cases", prefix + ".impl")
         except OSError:
             pass
+    if not crash and p.returncode != 0 and os.path.exists(prefix + ".cases"):
+        # the generator runs every case it emits: it died inside the crate under test. Re-run what it wrote, case by case.
+        robust_run(prefix + ".cases", prefix + ".impl")
     ok = True
     try:
         with open(prefix + ".cases") as fin, open(prefix + ".model", "w") as fout:
@@ -300,19 +390,19 @@ def sched_stage(prop, P, tags, tier, seed, replay, wdir, S, F):
             continue
         pre = os.path.join(wdir, "corpus_" + os.path.basename(cp).replace(".case", ""))
         open(pre + ".cases", "w").write(text if text.rstrip().endswith("end") else text + "\nend\n")
-        q = vlib.run([binp, "run", pre + ".cases"], timeout=3600)
-        open(pre + ".impl", "w").write(q.stdout)
+        robust_run(pre + ".cases", pre + ".impl")
         with open(pre + ".cases") as fin, open(pre + ".model", "w") as fout:
             subprocess.run([vlib.DRIVER, "conc"], stdin=fin, stdout=fout, stderr=subprocess.PIPE, text=True)
         streams.append(pre)
     if not replay:
         jobs = []
         for (profile, q, th) in P["profiles"]:
-            total = q if tier == "quick" else (min(th, q * 8) if tier == "search" else th)
+            total = q if tier == "quick" else (min(th, q * (3 if P.get("crash") else 8)) if tier == "search" else th)
             per = max(1, total // JOBS)
             for s in range(JOBS):
-                nsw = {"quick": P.get("sweep", (2, 40))[0], "search": 16}.get(tier, P.get("sweep", (2, 40))[1])
-                jobs.append((profile, seed * 100003 + s * 7919 + sum(map(ord, profile)), per, os.path.join(wdir, f"{profile}_{s}"), bool(P.get("crash")), nsw))
+                nsw = {"quick": P.get("sweep", (2, 40))[0], "search": 2 if P.get("crash") else 16}.get(tier, (4 if P.get("crash") else P.get("sweep", (2, 40))[1]))
+                jobs.append((profile, seed * 100003 + s * 7919 + sum(map(ord, profile)), per, os.path.join(wdir, f"{profile}_{s}"), bool(P.get("crash")), nsw, P.get("inject"),
+                             bool(P.get("crash")) and tier != "quick" and profile in ("fast", "list")))
         with cf.ThreadPoolExecutor(max_workers=JOBS) as ex:
             for prefix, rc, ok, extra in ex.map(gen_shard, jobs):
                 if rc != 0 or not ok: log(f"shard {prefix}: rc={rc} model_ok={ok}")
@@ -326,7 +416,9 @@ def sched_stage(prop, P, tags, tier, seed, replay, wdir, S, F):
         try:
             cases = split_cases(open(pre + ".cases").read().splitlines())
             impl = split_cases(open(pre + ".impl").read().splitlines())
-            impl_only = pre.endswith("_na")
+            # implementation-only streams: zero-fill scheduling points, crash sweeps, whole-arena operations (clear / rewind
+            # are not part of the step machine)
+            impl_only = pre.endswith(("_na", "_cs")) or os.path.basename(pre).startswith("crashseq")
             model = impl if impl_only else split_cases(open(pre + ".model").read().splitlines())
         except OSError as e:
             # a shard whose harness run died (no output files) is a broken correspondence, never silently skipped
@@ -344,7 +436,7 @@ def sched_stage(prop, P, tags, tier, seed, replay, wdir, S, F):
             # correspondence: event by event (crash lines are implementation-only)
             a = [norm(l) for l in il if not l.startswith("crash ")]
             b = [norm(l) for l in ml]
-            if a != b:
+            if a != b and not impl_only:
                 j = next((i for i in range(min(len(a), len(b))) if a[i] != b[i]), min(len(a), len(b)))
                 mism.append({"stream": pre, "case": k, "line": j, "impl": a[j] if j < len(a) else "<end>", "model": b[j] if j < len(b) else "<end>", "case_lines": cl})
             for v in monitor_sched(cl, il, S, F):
